@@ -246,7 +246,8 @@ const OPS: [&str; 6] = ["==", "!=", "<", "<=", ">", ">="];
 /// member named twice (`l OP l`); 3: the current node twice (`@ OP @`); 4: two
 /// members that share one reference-counted value. Forms 2-4 make both operands
 /// the very same node, where an identity shortcut would answer before looking
-/// at the operator or the types.
+/// at the operator or the types. 5 / 6: a member on one side and a literal on the other
+/// (a parser that normalises "literal OP expression" has a mirror table to get wrong).
 fn six(rep: &mut Report, exprs: &[jmespath::Expression<'_>; 6], form: u8, x: &PV, y: &PV) -> Option<[Option<bool>; 6]> {
     let literal = form == 1;
     let mut out = [None; 6];
@@ -261,6 +262,15 @@ fn six(rep: &mut Report, exprs: &[jmespath::Expression<'_>; 6], form: u8, x: &PV
         let res = if literal {
             let text = format!("`{}` {} `{}`", x.text().replace('`', "\\`"), op, y.text().replace('`', "\\`"));
             guarded(|| jmespath::compile(&text).and_then(|e| e.search(())))
+        } else if form == 5 || form == 6 {
+            // one operand from the document, the other a literal (either side)
+            let text = if form == 5 {
+                format!("l {} `{}`", op, y.text().replace('`', "\\`"))
+            } else {
+                format!("`{}` {} r", x.text().replace('`', "\\`"), op)
+            };
+            let input = rcvar_of(&doc);
+            guarded(|| jmespath::compile(&text).and_then(|e| e.search(&input)))
         } else if form == 2 {
             let input = rcvar_of(&doc);
             guarded(|| jmespath::compile(&format!("l {} l", op)).and_then(|e| e.search(&input)))
@@ -376,7 +386,7 @@ pub fn run(args: &Args) {
             if pair_index % args.shards != args.shard {
                 continue;
             }
-            let forms: &[u8] = if i == j { &[0, 1, 2, 3, 4] } else { &[0, 1] };
+            let forms: &[u8] = if i == j { &[0, 1, 2, 3, 4, 5, 6] } else if (i + j) % 2 == 0 { &[0, 1, 5] } else { &[0, 1, 6] };
             for &form in forms {
                 let literal = form == 1;
                 let (x, y) = (&pool[i], &pool[j]);
